@@ -51,4 +51,19 @@ CHECKS["C14"] = {
           "internal, relative file) in basins_retrieve is one fixed structure with symbolic flags. Not decided: DCOR/S3 network behaviour, "
           "basin dictionaries without a 'key'. The termination argument (variant on the ignore set) is stated, not mechanised.",
   "technique": "contract-based deductive verification: AST-generated VCs discharged by z3 (strings; cvc5 fallback) plus a solver-free field-write frame analysis"}
+CHECKS["C09"] = {
+  "text": "Proof for split(): number of parts == ceil(N/s) and part j is exported with exactly the window [j*s,(j+1)*s) of events, "
+          "minus at most the two boundary events (empty images), the manual filter being reset before each part (inductive invariant "
+          "over the ghost relation exported(part, event), any N and s); skip_empty_image_events only ever clears manual[0]/manual[N-1] "
+          "exactly when the first/last image is empty. Proof for join(): (i) slice up to the sorted input list with real z3/cvc5 "
+          "strings: the earlier acquisition (date, HH:MM:SS, fractional seconds) comes first; (ii) whole function on a three-input "
+          "scenario with symbolic data, opaque time stamps and a total order axiom: chronological order, written features == features "
+          "available in every input, per-feature concatenation in order, time + offset, frame + round(offset*rate), index 1..N, logs "
+          "of every source retained.",
+  "note": "Trusted: Export.hdf5/RTDCWriter.store_feature/new_dataset contracts (C02/C01), T-EPOCH (mktime(strptime(stamp)) monotone in "
+          "the lexicographic order of zero-padded stamps; DST not modelled), S-ORDER, N-ROUND, opaque event payloads; the join scenario "
+          "fixes the number of inputs (3) and their feature sets, and does not explore the branches that only log recorded warnings. "
+          "Known findings D18 (index_online shifted in join(split(x))) and D21 (ties ordered by run index) are carved out. .tdms "
+          "sources are outside the contracts.",
+  "technique": "contract-based deductive verification: AST-generated VCs with loop invariants and ghost relations, z3 with cvc5 (strings) as second back end; bounded replay when a function leaves the accepted subset"}
 NOT_APPLICABLE = {}
